@@ -670,3 +670,79 @@ Definition encode (p : pkg) : bytes :=
   let sh := encode_header (sig_items p) in
   encode_lead p ++ sh ++ repeat 0 (N.to_nat (pad_len (lenN (enc_store (sig_items p)))))
   ++ encode_header (main_items p) ++ k_payload p.
+
+(* ---- what is well formed, what go-rpm must return for it, what must be reported ---- *)
+
+Definition hex_val (c : N) : N :=
+  if (48 <=? c) && (c <=? 57) then c - 48
+  else if (65 <=? c) && (c <=? 70) then c - 55
+  else if (97 <=? c) && (c <=? 102) then c - 87
+  else 0.
+Definition of_hex (l : bytes) : N := fold_left (fun acc c => acc * 16 + hex_val c) l 0.
+
+Definition nonul (s : bytes) : bool := forallb (fun b => negb (b =? 0)) s.
+Definition opt_ok {A} (f : A -> bool) (o : option A) : bool := match o with Some a => f a | None => true end.
+
+Definition sig_ok (s : sigpkt) : bool :=
+  (if sp_v3 s then sig3_algo_ok (sp_algo s) else sig4_algo_ok (sp_algo s))
+  && hash_known (sp_hash s)
+  && (sp_issuer s <? 2 ^ 64) && (sp_created s <? 2 ^ 32)
+  && Nat.eqb (length (sp_hashtag s)) 2
+  && match sig_mpis (sp_algo s) with Some k => Nat.eqb (length (sp_mpis s)) k | None => false end
+  && forallb (fun m => lenN m <? 8192) (sp_mpis s).
+
+Definition pkg_ok (p : pkg) : bool :=
+  ((k_major p =? 3) || (k_major p =? 4))
+  && nonul (k_name p) && nonul (k_version p) && nonul (k_release p) && nonul (k_arch p)
+  && opt_ok nonul (k_rpmversion p) && opt_ok nonul (k_sha1 p) && opt_ok nonul (k_sha256 p)
+  && opt_ok (fun d => negb (Nat.eqb (length d) 0)) (k_md5 p)
+  && opt_ok sig_ok (k_dsa p) && opt_ok sig_ok (k_rsa p) && opt_ok sig_ok (k_gpg p) && opt_ok sig_ok (k_pgp p)
+  && (lenN (enc_store (sig_items p)) <=? max_header_size)
+  && (lenN (enc_store (main_items p)) <=? max_header_size)
+  && (pad_len (lenN (enc_store (main_items p))) <=? lenN (k_payload p)).
+
+(* the typed value go-rpm extracts for an item of the canonical layout *)
+Definition item_value (it : item) : value :=
+  if it_type it =? 7 then VBytes (it_data it) else VStrings [until_nul (it_data it)].
+
+Fixpoint entries_view (off : N) (its : list item) : list entry :=
+  match its with
+  | [] => []
+  | it :: r => mkentry (it_tag it) (it_type it) off (it_cnt it) (item_value it)
+               :: entries_view (off + lenN (it_data it)) r
+  end.
+
+Definition header_view (its : list item) : header :=
+  mkheader 1 (lenN its) (lenN (enc_store its)) (entries_view 0 its).
+
+Definition view (p : pkg) : pkgfile :=
+  mkpkgfile (mklead (k_major p) (k_minor p)) (header_view (sig_items p)) (header_view (main_items p)).
+
+(* the report of a well-formed package, written from the property:
+   identity strings and digests as stored; per signature its public-key algorithm, its hash
+   algorithm (RFC 4880 9.1, 9.4) and the 16 hex digits of its issuer key ID *)
+Definition pk_name (a : N) : bytes :=
+  if a =? 17 then bs "DSA" else if a =? 19 then bs "ECDSA" else if a =? 22 then bs "EdDSA" else bs "RSA".
+Definition hash_label (h : N) : bytes := match hash_name h with Some n => n | None => [] end.
+
+Definition sig_report (s : sigpkt) : list (bytes * bytes) :=
+  [(bs "Algorithm", pk_name (sp_algo s) ++ bs "/" ++ hash_label (sp_hash s));
+   (bs "Key id", fmt_keyid (sp_issuer s))].
+
+Definition stored (o : option bytes) : bytes := match o with Some s => s | None => [] end.
+Definition opt_list {A B} (f : A -> B) (o : option A) : list B := match o with Some a => [f a] | None => [] end.
+
+Definition report_children (p : pkg) : list info :=
+  opt_list (fun s => Info (bs "Signature") (sig_report s) []) (k_dsa p)
+  ++ opt_list (fun s => Info (bs "Signature") (sig_report s) []) (k_rsa p)
+  ++ opt_list (fun s => Info (bs "Legacy signature (RPM v3)") (sig_report s) []) (k_gpg p)
+  ++ opt_list (fun s => Info (bs "Legacy signature (RPM v3)") (sig_report s) []) (k_pgp p).
+
+Definition report (p : pkg) : info :=
+  Info (match stored (k_rpmversion p) with [] => bs "RPM" | v => bs "RPM (version " ++ v ++ bs ")" end)
+       ([(bs "Name", k_name p); (bs "Version", k_version p); (bs "Release", k_release p); (bs "Architecture", k_arch p)]
+        ++ opt_attr (bs "MD5") (hex_of false (stored (k_md5 p)))
+        ++ opt_attr (bs "SHA-1") (stored (k_sha1 p))
+        ++ opt_attr (bs "SHA-256") (stored (k_sha256 p))
+        ++ match report_children p with [] => [(bs "Signature", bs "none")] | _ => [] end)
+       (report_children p).
